@@ -5,6 +5,7 @@ import MithrilModel.Properties.C02
 Every hypothesis of the C02 theorems is about the lists handed in (no global hypothesis). Joint instances below, with an
 invalid signature, a repeated copy and a shared index in the input, and a verifier world whose oracles are not constant.
 -/
+set_option autoImplicit false
 namespace Vacuity.C02
 open Clerk
 
